@@ -1,7 +1,10 @@
 """C16 — generic models: type arguments are substituted through the class hierarchy."""
 from __future__ import annotations
 
-from ..core import CheckResult, Repo
+import ast
+from typing import Dict, List, Set
+
+from ..core import AnalysisError, CheckResult, Finding, Repo, func_params, norm, walk_no_nested
 
 LEVEL = "translation_validation"
 EXHAUSTIVE = True
@@ -10,17 +13,19 @@ EXPLANATION = (
     "specs (single generic class with containers; two parameters; a child that re-orders its parent's parameters; partial "
     "binding; non-generic child of a parametrised base; three levels; an overriding annotation that shadows an inherited "
     "type variable; a renamed variable bound to a container of the child's variable; bound / constrained / plain TypeVars "
-    "used bare; two generic bases). For each queried parametrisation the loader and dumper are compiled through the real "
+    "used bare; two generic bases; annotations that mention the variables in another order than Generic[...]; a plain "
+    "class beside a subscripted base; a plain subclass of a (overriding) generic; TypedDict hierarchies). For each queried parametrisation the loader and dumper are compiled through the real "
     "Retort with a CodeGenAccumulator and, per field, the function bound as `loader_<field>` / `dumper_<field>` together with "
     "the callables it closes over is read from the emitted namespace (never called). An independent resolver written from "
     "the property statement computes the substituted annotation of every field; its scalar leaves determine which strict "
     "scalar loaders (int/str/bool/float/Decimal/bytes/as-is/Book model) and which non-trivial dumpers must be bound, and the "
     "outer constructor (List/Dict/Optional/Union) which closure kind. A non-parametrised generic must be refused for dumping. "
     "Because every pool type has its own loader function, 'the type used to load each field' is decided exactly for the "
-    "enumerated hierarchies, for all data at once."
+    "enumerated hierarchies, for all data at once. The closure tree is compared in pre-order (argument positions matter). "
+    "Tier S: a memo inside the resolver singletons must be keyed by every parameter its value is computed from."
 )
 RULE = "one evaluation = one parametrisation (all its fields, loader and dumper)"
-ASSUMPTIONS = ["dataclass hierarchies only (the resolver is shared by all kinds; per-kind introspection is C17)",
+ASSUMPTIONS = ["dataclass hierarchies and two TypedDict hierarchies (the resolver is shared by all kinds; per-kind introspection is C17)",
                "type pool {int, str, bool, float, Decimal, bytes, Any, Book}: distinct types have distinct loader functions",
                "TypeVarTuple / Unpack are not enumerated"]
 
@@ -30,4 +35,79 @@ def run(repo: Repo, tier: str, res: CheckResult, seed: int = 0) -> None:
     genprog.c16_checks(repo, tier, res, seed)
     res.coverage["programs"] = 2 * res.counts["GENERIC.parametrisations"][0]     # one loader and one dumper per parametrisation
     res.coverage["disagreements_checked"] = res.counts["GENERIC.fields"][0]
+    memo_keys(repo, res)
     res.assumptions = list(ASSUMPTIONS)
+
+
+RESOLVER_MODULES = ("type_tools/implicit_params", "type_tools/generic_resolver", "provider/shape_provider")
+
+
+def _memo_stores(fn: ast.AST):
+    """`container[key] = value` stores into an attribute of self / a module-level name (a memo that outlives the call)"""
+    local_containers: Set[str] = set()
+    for n in walk_no_nested(fn, include_root=False):
+        if isinstance(n, ast.Assign) and len(n.targets) == 1 and isinstance(n.targets[0], ast.Name) \
+                and isinstance(n.value, (ast.Dict, ast.DictComp, ast.List, ast.ListComp, ast.Call)):
+            local_containers.add(n.targets[0].id)
+    for n in walk_no_nested(fn, include_root=False):
+        if isinstance(n, ast.Assign):
+            for t in n.targets:
+                if isinstance(t, ast.Subscript):
+                    base = t.value
+                    if isinstance(base, ast.Attribute) and norm(base.value) in ("self", "cls"):
+                        yield n, t, n.value
+                    elif isinstance(base, ast.Name) and base.id not in local_containers and base.id not in func_params(fn):
+                        yield n, t, n.value
+
+
+def _param_deps(fn: ast.FunctionDef, e: ast.AST, params: Set[str]) -> Set[str]:
+    """parameters the value of `e` depends on (through local assignments)"""
+    assigns: Dict[str, List[ast.AST]] = {}
+    for n in walk_no_nested(fn, include_root=False):
+        if isinstance(n, ast.Assign):
+            for t in n.targets:
+                if isinstance(t, ast.Name):
+                    assigns.setdefault(t.id, []).append(n.value)
+    seen: Set[str] = set()
+    out: Set[str] = set()
+    todo = [e]
+    while todo:
+        x = todo.pop()
+        for nm in ast.walk(x):
+            if isinstance(nm, ast.Name):
+                if nm.id in params:
+                    out.add(nm.id)
+                elif nm.id in assigns and nm.id not in seen:
+                    seen.add(nm.id)
+                    todo += assigns[nm.id]
+    return out - {"self", "cls"}
+
+
+def memo_keys(repo: Repo, res: CheckResult) -> None:
+    """The resolver objects are module-level singletons shared by every retort. A memo inside them is sound only when its
+    key determines the stored value: every parameter the value is computed from has to be part of the key (the namespace a
+    string bound is evaluated in comes from the TypeVar's module -- ForwardRef('Item') of two modules compare equal)."""
+    n = 0
+    for mname in RESOLVER_MODULES:
+        m = repo.mod(mname)
+        for fn in [x for x in ast.walk(m.tree) if isinstance(x, ast.FunctionDef)]:
+            params = set(func_params(fn))
+            for st, tgt, val in _memo_stores(fn):
+                n += 1
+                res.evaluated(f"memo:{m.rel}:{m.qualname(fn)}:{norm(tgt)[:40]}", True)
+                deps = _param_deps(fn, val, params)
+                keys = _param_deps(fn, tgt.slice, params)
+                missing = deps - keys
+                if missing:
+                    res.add(Finding("C16", "MEMO.key-omits-dependency", m.rel, m.qualname(fn), norm(st)[:100],
+                                    f"`{norm(tgt)}` memoises a value computed from {sorted(deps)} under a key made of {sorted(keys)} only: "
+                                    f"two requests that differ in {sorted(missing)} share the entry (a string bound `'Item'` of TypeVars "
+                                    "from two modules resolves to the class of whichever module was asked first), so the type a bare "
+                                    "generic is loaded with depends on the history of the process", st.lineno))
+    res.count("MEMO.stores-in-resolvers", n, 0)
+    fx = ast.parse("class G:\n    def f(self, type_var, tp):\n        if tp not in self._c:\n            self._c[tp] = ev(vars(mods[type_var.__module__]), tp)\n        return self._c[tp]\n")
+    ffn = fx.body[0].body[0]
+    got = [(_param_deps(ffn, v, {"self", "type_var", "tp"}), _param_deps(ffn, t.slice, {"self", "type_var", "tp"})) for _s, t, v in _memo_stores(ffn)]
+    if got != [({"type_var", "tp"}, {"tp"})]:
+        raise AnalysisError("MEMO rule fixture no longer matches")
+    res.evaluated("memo:fixture", True)
